@@ -116,6 +116,9 @@ def execute(prog, how, pol, seed, monitors, rrt_exp=None, fresh_scheduler=True):
         rt.step_probes.append(M.step_after_done_probe)
     if "active" in monitors:
         rt.step_probes.append(M.active_task_probe)
+    if "peek" in monitors:
+        rt.step_probes.append(M.peek_probe)
+        rt.before_probes.append(M.peek_probe)
     if "quiescence" in monitors:
         rt.before_probes.append(M.quiescence_probe)
     if "flushbook" in monitors or "flushbook_prio" in monitors:
@@ -138,7 +141,14 @@ def execute(prog, how, pol, seed, monitors, rrt_exp=None, fresh_scheduler=True):
         observed = None
         if needs_observed_items(prog):
             observed = dict(rt.item_done)
-        exp, rrt = ref.evaluate(prog, observed)
+        try:
+            exp, rrt = ref.evaluate(prog, observed)
+        except lang.HarnessFault:
+            if not rt.violations:
+                raise
+            # the run already violated an in-run oracle and went astray (requests the sequential program makes
+            # were never served): report what the monitors saw, there is nothing to compare with
+            return rt, out, None, None
     if "refeq" in monitors:
         if out[:2] != exp[:2]:
             rt.violation("root-outcome-differs-from-reference", {"expected": short(exp), "observed": short(out[:2])})
@@ -185,6 +195,7 @@ COUNTER_ATTRS = [
     "n_restore_checks",
     "n_lazy_checks",
     "n_unchanged_checks",
+    "n_peeks",
     "n_ctx_checks",
     "n_ctx_exclusive",
     "n_ctx_must_be_paused",
